@@ -73,7 +73,8 @@ ElemOf(c) == CASE c.code = 64 -> {Null}
                [] c.code = 0 -> {[t |-> "described", d |-> c.d, x |-> [t |-> "int", x |-> I4(1)]], [t |-> "described", d |-> c.d, x |-> [t |-> "int", x |-> I4(300)]]}
 \* an empty array carries no information about its element type: only one empty array in the value space
 Arrays == (UNION { { [t |-> "array", c |-> cc, x |-> s] : s \in Seqs(ElemOf(cc), 2) \ {<<>>} } : cc \in ArrCtors })
-          \cup { [t |-> "array", c |-> [code |-> 64], x |-> <<>>],
+          \cup { [t |-> "array", c |-> [code |-> 64], x |-> <<>>], [t |-> "array", c |-> [code |-> 64], x |-> <<Null, Null, Null>>],
+                 [t |-> "array", c |-> [code |-> 65], x |-> Rep(B(TRUE), 4)], [t |-> "array", c |-> [code |-> 67], x |-> Rep(UI(0), 5)],
                  [t |-> "array", c |-> [code |-> 82], x |-> Rep(UI(3), 255)], [t |-> "array", c |-> [code |-> 82], x |-> Rep(UI(3), 256)],
                  [t |-> "array", c |-> [code |-> 163], x |-> Rep(Sym(<<97>>), 126)], [t |-> "array", c |-> [code |-> 163], x |-> Rep(Sym(<<97>>), 127)] }
 Described == { [t |-> "described", d |-> d, x |-> v] : d \in {UL(20), UL(70000), Sym(<<120,58,121>>)}, v \in Small \cup {L(<<>>), L(<<UI(1)>>)} }
